@@ -8,7 +8,7 @@ from hypothesis import strategies as st
 from vf import gwl
 from vf.core import Obs
 from vf.lab import LETTERS, lab_spec, real_idx, wid
-from vf.prog import ops_list, World, execute, expect_sequential, expect_transfer, flat_pairs, known_comp, model_apply, op_direct, op_distribute, op_transfer, resolve, trough_indices, vs_ok
+from vf.prog import op_evo, ops_list, World, execute, expect_sequential, expect_transfer, flat_pairs, known_comp, model_apply, op_direct, op_distribute, op_transfer, resolve, trough_indices, vs_ok
 
 PID = "C05"
 RULE = (
@@ -90,7 +90,9 @@ def _case(draw, focus, tier="quick"):
     # a dispense of known composition that overflows its (single) well: must be refused and leave the well as it was
     refused = st.fixed_dictionaries({"op": st.just("dispense"), "lw": st.integers(0, 2), "wells": st.fixed_dictionaries({"t": st.just("scalar"), "w": st.tuples(st.integers(0, 15), st.integers(0, 23)).map(list)}), "vols": st.just({"t": "scalar", "v": {"over": 10.0}}), "label": st.none(), "comps": st.integers(1, 5), "refused": st.just(True)})
     a = op_direct(vs, kinds=("aspirate",), max_n=4)
-    anyop = st.one_of(t, t, d, dc, a, refused)
+    # the EVO's multi-tip dispense with one known composition per well (a plain multi-well dispense on the Fluent)
+    ed = op_evo(vs, min_tips=2).map(lambda o: dict(o, op="evo_dispense", comps=1 + o["col"] % 5))
+    anyop = st.one_of(t, t, d, dc, a, refused, ed)
     fop = {"transfer": t, "distribute": d, "dispense": dc, "mixed": anyop}[focus]
     return {"labs": labs, "device": draw(st.sampled_from(["evo", "fluent"])), "q": q, "M": draw(st.sampled_from([950, 50, 7, 33.3])), "ops": draw(ops_list(st.one_of(fop, anyop), 1, 12 if tier == "quick" else 20))}
 
@@ -174,6 +176,15 @@ def check_case(case) -> Obs:
                 continue
             op["src"] = troughs[op["src"] % len(troughs)]
             op["cap"] = case["M"]
+        if kind == "evo_dispense":
+            op["cap"] = case["M"]
+            if case["device"] != "evo":
+                # the Fluent has no script commands: the same wells, volumes and compositions as one multi-well dispense
+                op["op"] = kind = "dispense"
+                op["wells"] = {"t": "list", "w": [[r, op["col"]] for r in op["rows"]]}
+                op["vols"] = {"t": "list", "v": op["vols"]} if isinstance(op["vols"], list) else {"t": "scalar", "v": op["vols"]}
+            else:
+                obs.cls("evo_dispense-with-compositions")
         if kind in ("aspirate", "dispense") and not op.get("refused"):
             op["cap"] = case["M"]
         if kind == "transfer":
